@@ -40,7 +40,8 @@ func init() {
 			New: "	if s.Top == nil {\n		s.Top = map[TagUnion]*MultiValue{}\n	}\n"})
 	Extend("C12", runC12Extra3,
 		Mutant{Name: "seed-C12c-corruption-test-after-normalisation", File: "internal/data_model/validation.go", Rule: "C12-R8",
-			Old: "	if corrupted {", New: "	if format.ContainsCorruptedBalancerValue(v.Value) {"},
+			Old: "	corrupted := format.ContainsCorruptedBalancerValue(v.Value)\n\n	validValue, err := format.AppendValidStringValue(v.Value[:0], v.Value)\n",
+			New: "	validValue, err := format.AppendValidStringValue(v.Value[:0], v.Value)\n	corrupted := format.ContainsCorruptedBalancerValue(v.Value)\n"},
 		Mutant{Name: "seed-C12d-counter-fast-path-forgets-histogram", File: "internal/agent/agent.go", Rule: "C12-R9",
 			Old: "	if len(m.Histogram)+len(m.Value) != 0 {", New: "	if len(m.Value) != 0 {"})
 	Extend("C21", runC21Extra3,
